@@ -467,6 +467,19 @@ def checkCase (lines : Array String) : Array String := Id.run do
         a := a.prop id "C17" "deserialised value: iter topological, iter_rev reverse topological"
           (topoOrderB realG (unmap (kvCsv rest "back_iter")) && topoOrderB realG.flip (unmap (kvCsv rest "back_iter_rev")))
     | "ctx" :: c :: _ => a := { a with ctx := c }
+    | "crash" :: rest =>
+      -- a panic escaped the real code in one stage of the case (outside the polls the harness guards
+      -- individually): counted against the property that stage belongs to, and as a difference in the
+      -- stage's facet
+      let stage := (kv rest "stage").getD "?"
+      let (p, facet) := match stage with
+        | "seq" => ("C14", "T-seq")
+        | "ginfo" => ("C17", "G-info")
+        | "eq" => ("C12", "B-eq")
+        | "clone" => ("C11", "B-sched")
+        | _ => ("C04", "R-quiesce")
+      a := a.prop id p s!"the real code panics in stage {stage}: {(kv rest "msg").getD ""}" false
+      a := a.cmp id facet s!"stage {stage}" "no-panic" "panic"
     | "session" :: rest =>
       inSession := true; started := false; mons := #[]; runCfgs := #[]; nSessions := nSessions + 1
       sessCoop := (kv rest "coop") == some "1"
